@@ -16,7 +16,7 @@ EXPLANATION = (
     'sends Continue before it reassembles and only when fragments are missing, and the mirrored order for fragmented '
     'responses; R3 a message longer than the acceptable length is answered with Reject / dropped before any reassembly or '
     'delivery (the request handler is reachable only through the passing branch of the length test); R4 the header formats, '
-    'offsets and completeness tests of client and server agree (struct sizes computed by the checker).  Octet-for-octet '
+    'offsets and completeness tests of client and server agree (struct sizes computed by the checker; header fields read as "n byte integer at offset k" whichever idiom extracts them).  Octet-for-octet '
     'arrival over the complete stack for every MIU/RW pair is not decided.')
 
 CONT_REQ = b"\x10\x00\x00\x00\x00\x00"     # Continue (request code 00h)
